@@ -204,16 +204,30 @@ fn protected_discipline(ctx: &mut Ctx, ty: Ty, b: &[u8]) {
         Some(Item::Bytes(p)) if !p.is_empty() => p.clone(),
         _ => return,
     };
-    let mut variants: Vec<(String, Vec<u8>)> = Vec::new();
-    for k in 1..p.len() {
-        variants.push((format!("protected truncated to {} of {}", k, p.len()), p[..k].to_vec()));
-    }
-    for s in [vec![0x00u8], vec![0xa0], vec![0xff], vec![0x40], p.clone(), vec![0xf6], vec![0x18], ctx.rng.bytes(3)] {
-        let mut x = p.clone();
-        x.extend_from_slice(&s);
-        variants.push((format!("protected followed by {}", hex(&s)), x));
-    }
-    for (what, np) in variants {
+    // every truncation offset for headers up to 2 KiB; beyond that the first and last 64 offsets and
+    // 256 random ones (the work per variant is linear in the header's length)
+    let cuts: Vec<usize> = if p.len() <= 2048 {
+        (1..p.len()).collect()
+    } else {
+        let mut v: Vec<usize> = (1..65).collect();
+        v.extend(p.len() - 64..p.len());
+        for _ in 0..256 {
+            v.push(1 + ctx.rng.below(p.len() - 1));
+        }
+        v
+    };
+    let suffixes: Vec<Vec<u8>> = vec![vec![0x00u8], vec![0xa0], vec![0xff], vec![0x40], p.clone(), vec![0xf6], vec![0x18], ctx.rng.bytes(3)];
+    let nvariants = cuts.len() + suffixes.len();
+    for vi in 0..nvariants {
+        let (what, np) = if vi < cuts.len() {
+            let k = cuts[vi];
+            (format!("protected truncated to {} of {}", k, p.len()), p[..k].to_vec())
+        } else {
+            let s = &suffixes[vi - cuts.len()];
+            let mut x = p.clone();
+            x.extend_from_slice(s);
+            (format!("protected followed by {}", hex(&s[..s.len().min(16)])), x)
+        };
         ctx.eval();
         ctx.count("protected-variants");
         let mut a = it.clone();
